@@ -17,7 +17,7 @@ func init() {
 			if tier == "quick" {
 				return 6000
 			}
-			return 150000
+			return 450000
 		},
 		Rule:        "case = one tree (any config; never persisted / persisted / reloaded / persisted-then-modified / clone; 0..600 entries, heights 0..8; both kinds of empty tree) and ~30 walks on fresh cursors: start at Min, Max or Ceil(probe) with probes present, absent of every layer, below the minimum and above the maximum, then a seeded sequence of Forward/Backward steps compared with index arithmetic on the model's sorted key list after every step, ending when the index leaves [0,n) where Get must report no entry; plus SeekIter(probe) compared with the model's suffix, and with the callback returning ErrIterDone at the j-th call (exactly j calls, nil error); on empty trees every cursor method and SeekIter must return without panic; non-trivial = height >= 2 AND (the walk has both directions OR the probe is absent); distinct by (tree contents, start, step string)",
 		Assumptions: []string{"behaviour after stepping off an end is not judged (the statement does not define it); each walk uses a fresh cursor"},
